@@ -25,7 +25,8 @@ CLAIM = ('Both back-ends implement the complete primitive interface with the bas
          'reparentChildren is cleared at its source; hasContent counts every child and the text in both back- '
          'ends; the DOM attribute wrapper keeps the Mapping contract (KeyError for a missing name) that `in` '
          'relies on. A node that may already have a parent is detached before it is attached elsewhere '
-         '(minidom moves, ElementTree duplicates); the builder-module cache keys on keyword values.')
+         '(minidom moves, ElementTree duplicates); the builder-module cache keys on keyword values.'
+         " The DOM doctype name goes through minidom's qualified-name split (read off the standard library's source) and plain attribute names are stored verbatim as ElementTree keys, where `{..}` reads as Clark notation (two known findings).")
 NOT_DECIDED = "text placement (.text/.tail arithmetic), fragment extraction, equality of the resulting trees as such."
 MODULES = ["treebuilders/base.py", "treebuilders/etree.py", "treebuilders/dom.py", "treebuilders/__init__.py"]
 
